@@ -28,7 +28,7 @@ from . import common
 MODULES = ["CoapVerif.Props.C15", "CoapVerif.Findings.C15"]
 GENERATED = ["OptionList.lean", "OptionListShape.lean"]
 EDITS = {"set", "add", "setstr", "addstr", "setu32", "addu32", "remove", "setpath", "setloc", "addquery", "resetto",
-         "resetself", "clone", "swap", "reset"}
+         "resetself", "resetslice", "clone", "swap", "reset"}
 IDS_SMALL = [8, 11, 15]
 IDS_WIDE = [0, 1, 3, 4, 6, 8, 11, 12, 14, 15, 17, 20, 23, 35, 60, 258, 65535]
 
@@ -85,6 +85,11 @@ class Ref:
             if self.ids:
                 cur = sorted(self.ids)
                 self.ids = [cur[int(x) % len(cur)] for x in f[1:]]
+        elif op == "resetslice":
+            cur = sorted(self.ids)
+            k = int(f[1]) % (len(cur) + 1)
+            n = int(f[2]) % (len(cur) - k + 1)
+            self.ids = cur[k:k + n]
         elif op == "reset":
             self.ids = []
 
@@ -192,6 +197,8 @@ def rand_edit(rng, ref, pool, ids):
         else:
             idx = [rng.randrange(n + 2) for _ in range(rng.choice([1, 2, 3, n]))]   # permutation / repetition
             rng.shuffle(idx)
+        if rng.random() < 0.35:
+            return "resetslice %d %d" % (rng.randrange(n + 1), rng.randrange(n + 2))
         return "resetself " + " ".join(map(str, idx))
     if k < 0.94:
         return "clone"
@@ -313,6 +320,8 @@ def resetself_seqs(rng, count):
             else:
                 idx = rng.sample(range(n), rng.randrange(1, n + 1)) if n else []
             e = "resetself " + " ".join(map(str, idx))
+            if rng.random() < 0.3:
+                e = "resetslice %d %d" % (rng.randrange(n + 1), rng.randrange(n + 2))   # true sub-slice of the own array
             ref.apply(e)
             seq.append(e)
             seq += ["path", "queries", "cf"]
@@ -322,6 +331,83 @@ def resetself_seqs(rng, count):
                 seq.append(e)
         seq += battery(sorted(set(ref.ids))[:4] or [11], ref.counts())
         seqs.append(seq)
+    return seqs
+
+
+SIZES = [11, 12, 13, 14, 15, 16, 17, 20, 24, 32, 33, 40]
+
+
+def big_items(rng, n, sorted_=False):
+    """n options, not ordered by number, with runs of repeated numbers and distinct values (so that the relative order of
+    equal numbers is visible)."""
+    ids = []
+    pool_ids = rng.sample([1, 4, 8, 11, 11, 15, 15, 17, 20, 35, 60], rng.choice([2, 3, 4, 5]))
+    while len(ids) < n:
+        ids += [rng.choice(pool_ids)] * rng.choice([1, 1, 2, 3, 5, 7])
+    ids = ids[:n]
+    if sorted_:
+        ids.sort()
+    elif ids == sorted(ids):
+        ids[0], ids[-1] = ids[-1], ids[0]
+        if ids == sorted(ids):
+            ids = [60] + ids[:-1]
+    return [(i, bytes([k + 1]) * rng.choice([1, 1, 2, 3])) for k, i in enumerate(ids)]
+
+
+def size_boundary_seqs(rng, reps):
+    """Deterministic sweep over the list sizes at which an algorithm may switch (Go's pdqsort: insertion sort up to 12
+    elements; binary search depth; option capacity 16 of NewMessage; 256-byte value buffer): ResetOptionsTo / Clone /
+    reset-to-own-options with 11..40 unordered entries with repeated numbers, and Add/Set/Remove/SetPath on lists of those
+    sizes, each followed by the query battery."""
+    seqs = []
+    for n in SIZES:
+        for rep in range(reps):
+            for kind in ("pool", "raw"):
+                cap = rng.choice([0, 4, 12, 13, 16, 16, 40])
+                new = "new pool %d" % cap if kind == "pool" else "new raw %d %d" % (cap, rng.choice([600, 4000]))
+                items = big_items(rng, n)
+                fmt = lambda its: " ".join("%d:%s" % (i, hx(v)) for i, v in its)
+                ids = sorted({i for i, _ in items})[:4]
+                cnt = {}
+                for i, _ in items:
+                    cnt[i] = cnt.get(i, 0) + 1
+                # (a) reset to an unordered list with repeats, read everything back, clone it, reset to own permutation
+                seq = [new, "resetto %d %s" % (n, fmt(items))] + battery(ids, cnt)
+                perm = list(range(n))
+                rng.shuffle(perm)
+                seq += ["clone", "path", "queries", "resetself " + " ".join(map(str, perm)), "path", "queries",
+                        "resetslice %d %d" % (rng.randrange(3), n), "path", "queries",
+                        "getstrs %d %d" % (ids[0], n), "getbytess %d %d" % (ids[-1], n)]
+                seqs.append(seq)
+                # (b) build the list of n entries with Add in unordered order, then edit around it
+                seq = [new] + ["add %d %s" % (i, hx(v)) for i, v in items]
+                seq += ["path", "queries"]
+                for _ in range(3):
+                    i = rng.choice(ids + [rng.choice([0, 9, 12, 16, 61])])
+                    seq.append(rng.choice(["add %d %s" % (i, hx(bytes([200 + rep]))), "set %d %s" % (i, hx(bytes([220 + rep]))),
+                                           "remove %d" % i, "setpath %s" % hx(b"/p/q/r"), "addquery %s" % hx(b"z=1")]))
+                    seq += ["find %d" % i, "getstrs %d %d" % (i, n + 1)]
+                ref = Ref()
+                for l in seq[1:]:
+                    if l.split()[0] in EDITS:
+                        ref.apply(l)
+                seq += battery(sorted(set(ref.ids))[:4] or [11], ref.counts())
+                seqs.append(seq)
+        # (c) a path with n segments and n queries set in one go (repeated numbers only), then reset-to of a shuffled copy
+        segs = [bytes([97 + k % 26]) * (1 + k % 3) for k in range(n)]
+        mixed = [(11, sg) for sg in segs] + [(15, bytes([48 + k % 10, 61, 65 + k % 26])) for k in range(n // 2)]
+        rng.shuffle(mixed)
+        seqs.append(["new pool 16", "resetto %d %s" % (len(mixed), " ".join("%d:%s" % (i, hx(v)) for i, v in mixed)),
+                     "path", "queries", "getstrs 11 %d" % n, "getstrs 15 %d" % n, "clone", "path", "queries"])
+    # value-buffer boundary: total stored bytes 255 / 256 / 257 / 258 in one and in several values
+    for total in (254, 255, 256, 257, 258, 511, 512, 513):
+        for parts in (1, 2, 5):
+            base = total // parts
+            lens = [base] * (parts - 1) + [total - base * (parts - 1)]
+            seq = ["new pool 16"] + ["add %d %s" % (20 + k, hx(bytes([65 + k]) * ln)) for k, ln in enumerate(lens)]
+            seq += ["add 60 aa", "getbytes 20", "getbytes 60", "resetself " + " ".join(str(i) for i in reversed(range(parts + 1))),
+                    "getbytes 20", "getbytes 60", "setpath %s" % hx(b"/" + b"s" * 200), "getbytes 20", "path"]
+            seqs.append(seq)
     return seqs
 
 
@@ -447,7 +533,7 @@ def nontrivial(seq, impl):
             ids.add("15")
         elif f[0] == "resetto":
             ids.update(x.split(":")[0] for x in f[2:])
-        elif f[0] == "resetself":
+        elif f[0] in ("resetself", "resetslice"):
             pass
         else:
             ids.add(f[1])
@@ -482,6 +568,7 @@ def explore(ctx, art):
             yield "exhaustive", exhaustive([5], [0, 2], [16])
         yield "path-edit", batches(path_edit_seqs(rng, 6000 if thorough else 400))
         yield "reset-self", batches(resetself_seqs(rng, 6000 if thorough else 500))
+        yield "size-boundary", batches(size_boundary_seqs(rng, 12 if thorough else 2))
         yield "random", batches(random_seqs(rng, 30000 if thorough else 1200, 48 if thorough else 28))
     distinct = set()
     totals = {}
@@ -541,7 +628,11 @@ def explore(ctx, art):
         "options, when the buffer must grow or the new path is refused; random = seeded sequences over all operations, value "
         "lengths around 255/256/257 and beyond, paths with empty and 255/256-byte segments, resetto with unsorted input, "
         "clone/swap/reset/resetself; reset-self = values stored in an order different from option-number order, then the object "
-        "is reset to a subset / permutation of ITS OWN options (sources alias the object's value buffer). evaluations = operation lines executed on the real code and judged. distinct_nontrivial = number of "
+        "is reset to a subset / permutation of ITS OWN options (sources alias the object's value buffer); size-boundary = "
+        "deterministic sweep over list sizes 11,12,13,14,15,16,17,20,24,32,33,40 (algorithm-switch thresholds: 12/13 of Go's "
+        "pdqsort, capacity 16, binary-search depths): reset-to / clone / reset-to-own-permutation with unordered inputs "
+        "with runs of repeated numbers, Add/Set/Remove/SetPath/AddQuery on lists of those sizes, and stored-byte totals "
+        "254..258, 511..513 around the 256-byte value buffer. evaluations = operation lines executed on the real code and judged. distinct_nontrivial = number of "
         "distinct sequences (SHA-1 of the text) that have >= 3 editing operations on >= 2 option numbers, or in which a value "
         "forced the pooled message's value buffer to grow (detected from the reported unused-buffer length)." % (4 if thorough else 3))
     _ = growth
